@@ -259,6 +259,7 @@ def run(ctx):
     try:
         s4 = pipeline.wild_stream(run_, "C01", tier, seed, oracles=(pipeline.oracle_c01,))
         s4.name = "S4-wild-instr"
+        s6 = run_.repeat_stream()
     finally:
         run_.close()
-    return [s, s2, s3, s4, s5]
+    return [s, s2, s3, s4, s5, s6]
